@@ -100,7 +100,7 @@ package knx
 
 //@ func (conn *Tunnel) performHeartbeat(heartbeat <-chan knxnet.ErrCode, timeout chan<- struct{})
 //@   props C09
-//@   ghost
+//@   ghost nsend lastsend sendsame sendclock nrecv lastrecv nticker ntickerstop nafter period lastticker.d lastafter.d nsent lastsent
 //@   noterm
 //@   requires conn.sock != nil && conn.config.ResendInterval > 0 && !closed(timeout)
 //@   ensures [signal] nsent(timeout) > old(nsent(timeout)) ==> nsent(timeout) == old(nsent(timeout)) + 1 && (nrecv(heartbeat) == old(nrecv(heartbeat)) || lastrecv(heartbeat) != 0)
@@ -135,3 +135,44 @@ package knx
 //@   requires conn.sock != nil
 //@   ensures [request] nsend(conn.sock) == old(nsend(conn.sock)) + 1 && typeis(lastsend(conn.sock), *knxnet.DiscReq) && lastsend(conn.sock).(*knxnet.DiscReq).Channel == conn.channel && lastsend(conn.sock).(*knxnet.DiscReq).Control == conn.control
 //@   assigns nothing
+
+//@ func (conn *Tunnel) process() (err error)
+//@   props C09 C04
+//@   ghost nsend lastsend sendsame sendclock nrecv lastrecv nticker ntickerstop nafter period lastticker.d lastafter.d nsent lastsent nspawn spawnarg
+//@   noterm
+//@   requires conn.sock != nil && conn.config.ResendInterval > 0 && conn.config.HeartbeatInterval > 0 && !closed(conn.inbound)
+//@   ensures [outcomes] err == nil || err == errHeartbeatFailed || err == errInboundClosed || err == errDisconnected
+//@   ensures [inbound.open] !closed(conn.inbound)
+//@   assigns nothing
+//@   loop 0 invariant !closed(conn.inbound) && !closed(heartbeat) && !closed(timeout)
+//@   loop 0 assigns seqNumber
+//@   loop 0 ghost nsend lastsend sendsame sendclock nrecv lastrecv nticker ntickerstop nafter period lastticker.d lastafter.d nsent lastsent nspawn spawnarg
+
+//@ func (conn *Tunnel) requestConn() (err error)
+//@   props C09 C03
+//@   ghost nsend lastsend sendsame sendclock nrecv lastrecv nticker ntickerstop nafter period lastticker.d lastafter.d nsent lastsent nspawn spawnarg held unlockclock
+//@   noterm
+//@   requires conn.sock != nil && !held(conn.seqMu) && conn.config.ResendInterval > 0
+//@   ensures [unlocked] !held(conn.seqMu)
+//@   ensures [restart] err == nil ==> conn.seqNumber == 0 && nrecv(conn.sock.Inbound()) >= old(nrecv(conn.sock.Inbound())) + 1 && typeis(lastrecv(conn.sock.Inbound()), *knxnet.ConnRes) && lastrecv(conn.sock.Inbound()).(*knxnet.ConnRes).Status == 0 && conn.channel == lastrecv(conn.sock.Inbound()).(*knxnet.ConnRes).Channel
+//@   ensures [request] nsend(conn.sock) > old(nsend(conn.sock)) ==> typeis(lastsend(conn.sock), *knxnet.ConnReq) && lastsend(conn.sock).(*knxnet.ConnReq).Layer == conn.layer && lastsend(conn.sock).(*knxnet.ConnReq).Control == conn.control && lastsend(conn.sock).(*knxnet.ConnReq).Tunnel == conn.control
+//@   ensures [identical] nsend(conn.sock) > old(nsend(conn.sock)) + 1 ==> sendsame(conn.sock) || !old(sendsame(conn.sock))
+//@   ensures [failed] err != nil ==> conn.seqNumber == old(conn.seqNumber) && conn.channel == old(conn.channel)
+//@   assigns conn.control, conn.channel, conn.seqNumber
+//@   loop 0 invariant !held(conn.seqMu) && conn.seqNumber == old(conn.seqNumber) && conn.channel == old(conn.channel) && conn.layer == old(conn.layer) && nrecv(conn.sock.Inbound()) >= old(nrecv(conn.sock.Inbound()))
+//@   loop 0 invariant nsend(conn.sock) >= old(nsend(conn.sock)) + 1 && (old(sendsame(conn.sock)) ==> sendsame(conn.sock))
+//@   loop 0 invariant typeis(lastsend(conn.sock), *knxnet.ConnReq) && lastsend(conn.sock).(*knxnet.ConnReq) == req
+//@   loop 0 invariant req.Layer == conn.layer && req.Control == conn.control && req.Tunnel == conn.control
+//@   loop 0 assigns nothing
+//@   loop 0 ghost nsend lastsend sendsame sendclock nrecv lastrecv
+
+//@ func (conn *Tunnel) serve()
+//@   props C09
+//@   ghost
+//@   noterm
+//@   requires conn.sock != nil && conn.config.ResendInterval > 0 && conn.config.HeartbeatInterval > 0 && !closed(conn.inbound) && !closed(conn.ack) && !held(conn.seqMu)
+//@   ensures [shutdown] closed(conn.ack) && closed(conn.inbound) && nclose(conn.ack) == old(nclose(conn.ack)) + 1 && nclose(conn.inbound) == old(nclose(conn.inbound)) + 1 && gcount("wg:Done") == old(gcount("wg:Done")) + 1
+//@   assigns conn.control, conn.channel, conn.seqNumber
+//@   loop 0 invariant !closed(conn.inbound) && !closed(conn.ack) && !held(conn.seqMu) && nclose(conn.ack) == old(nclose(conn.ack)) && nclose(conn.inbound) == old(nclose(conn.inbound)) && gcount("wg:Done") == old(gcount("wg:Done"))
+//@   loop 0 assigns conn.control, conn.channel, conn.seqNumber
+//@   loop 0 ghost nsend lastsend sendsame sendclock nrecv lastrecv nticker ntickerstop nafter period lastticker.d lastafter.d nsent lastsent nspawn spawnarg held unlockclock
